@@ -493,4 +493,141 @@ theorem repaired_invariant_reexpress_desired_with_atol (act des : Qty K) (u : TU
 example : (witnessAct.reexpress ⟨1 / 100, 0, Dim.dLength⟩).vals = [100] := by
   simp [Qty.reexpress, witnessAct, convVal]
 
+
+/-! ### the `numpy.allclose` handler on two quantities -/
+
+theorem tunit_eq_iff_field [UnitClose K] (hc : ∀ a b : K, UnitClose.close a b = (a == b))
+    (u v : TUnit K) :
+    TUnit.eq u v = true ↔ u.scale = v.scale ∧ u.offset = v.offset ∧ u.dim = v.dim := by
+  simp [TUnit.eq, hc, and_assoc]
+
+/-- **what the `numpy.allclose` handler computes on two quantities neither of which is
+    `NULL_UNIT`-like**: it raises or says `False` unless the dimensions agree, and otherwise
+    compares the SI magnitudes with the bare `atol` read in the *first* argument's unit (the
+    documented reference value of `numpy.allclose(a, b)` is `b`; finding
+    `np.allclose|verdict|reads-bare-atol-in-first-unit`) -/
+theorem handler_allclose_iff_si [UnitClose K] (hc : ∀ a b : K, UnitClose.close a b = (a == b))
+    (a b : Qty K) (rt atl : K)
+    (ha : TUnit.eq a.unit nullUnit = false) (hb : TUnit.eq b.unit nullUnit = false)
+    (hsa : 0 < a.unit.scale) (hoa : a.unit.offset = 0) (hob : b.unit.offset = 0) :
+    allcloseHandler (.qty a) (.qty b) rt atl = .ok true ↔
+      ∃ ps, broadcast2 a.vals b.vals = some ps ∧ a.unit.dim = b.unit.dim ∧
+        ∀ p ∈ ps, Ref.closeSI rt (atl * a.unit.scale) (p.1 * a.unit.scale) (p.2 * b.unit.scale)
+          ∨ p.1 * a.unit.scale = p.2 * b.unit.scale := by
+  have hne : a.unit.scale ≠ 0 := ne_of_gt hsa
+  have key : ∀ x y : K, iscloseElem rt atl x (y * (b.unit.scale / a.unit.scale)) = true ↔
+      (Ref.closeSI rt (atl * a.unit.scale) (x * a.unit.scale) (y * b.unit.scale)
+        ∨ x * a.unit.scale = y * b.unit.scale) := by
+    intro x y
+    have := iscloseElem_conv a.unit.scale b.unit.scale a.unit.scale rt atl x y hsa
+    rwa [div_self hne, mul_one] at this
+  unfold allcloseHandler arrayCompHelper
+  simp only [unitsAttr, rawVals, ha, hb, Bool.not_false, Bool.and_true, Bool.false_eq_true,
+    if_false]
+  by_cases he : TUnit.eq b.unit a.unit = true
+  · obtain ⟨hs, _, hd⟩ := (tunit_eq_iff_field hc _ _).mp he
+    simp only [he, Bool.not_true, Bool.false_eq_true, if_false]
+    rw [npAllclose_iff]
+    constructor
+    · rintro ⟨ps, hps, hall⟩
+      refine ⟨ps, hps, hd.symm, fun p hp => ?_⟩
+      have h1 := hall p hp
+      have h2 := (key p.1 p.2).mp (by rwa [hs, div_self hne, mul_one])
+      exact h2
+    · rintro ⟨ps, hps, _, hall⟩
+      refine ⟨ps, hps, fun p hp => ?_⟩
+      have h2 := (key p.1 p.2).mpr (hall p hp)
+      rwa [hs, div_self hne, mul_one] at h2
+  · simp only [Bool.not_eq_true] at he
+    simp only [he, Bool.not_false, if_true, inUnits]
+    by_cases hd : b.unit.dim = a.unit.dim
+    · have hd' : (b.unit.dim != a.unit.dim) = false := by simp [hd]
+      simp only [hd', Bool.false_eq_true, if_false]
+      have h := npAllclose_map_iff rt atl id (convVal b.unit a.unit) a.vals b.vals
+      simp only [List.map_id, id] at h
+      rw [h]
+      constructor
+      · rintro ⟨ps, hps, hall⟩
+        refine ⟨ps, hps, hd.symm, fun p hp => ?_⟩
+        have h1 := hall p hp
+        rw [convVal_linear _ _ _ hob hoa] at h1
+        exact (key p.1 p.2).mp h1
+      · rintro ⟨ps, hps, _, hall⟩
+        refine ⟨ps, hps, fun p hp => ?_⟩
+        rw [convVal_linear _ _ _ hob hoa]
+        exact (key p.1 p.2).mpr (hall p hp)
+    · have hd' : (b.unit.dim != a.unit.dim) = true := by simpa using hd
+      simp only [hd', if_true]
+      constructor
+      · intro h; cases h
+      · rintro ⟨_, _, h1, _⟩; exact absurd h1.symm hd
+
+
+/-! ### lists of quantities -/
+
+/-- `unyt_array([q₁, q₂, …])` denotes the same SI magnitudes as its items, whatever units the
+    items are written in (zero-offset, commensurable units; the result is labelled with the
+    first item's unit), so a list of quantities in mixed spellings is judged like the array -/
+theorem qlist_preserves_si [UnitClose K] (hc : ∀ a b : K, UnitClose.close a b = (a == b))
+    (x : K) (u : TUnit K) (rest : List (K × TUnit K)) (q : Qty K)
+    (hsu : u.scale ≠ 0) (hoff : ∀ it ∈ (x, u) :: rest, it.2.offset = 0)
+    (h : asUnytArray (.qlist ((x, u) :: rest)) = .ok q) :
+    q.unit = u ∧ Qty.si q = ((x, u) :: rest).map (fun it => it.1 * it.2.scale) := by
+  have hu0 : u.offset = 0 := hoff (x, u) (by simp)
+  simp only [asUnytArray] at h
+  by_cases hany : (((x, u) :: rest).any fun it => !(TUnit.eq u it.2)) = true
+  · rw [if_pos hany] at h
+    by_cases hdim : (((x, u) :: rest).any fun it => it.2.dim != u.dim) = true
+    · rw [if_pos hdim] at h; cases h
+    · rw [if_neg hdim] at h
+      cases h
+      refine ⟨rfl, ?_⟩
+      unfold Qty.si
+      simp only [List.map_map]
+      apply List.map_congr_left
+      intro it hit
+      simp only [Function.comp, convVal_linear _ _ _ (hoff it hit) hu0]
+      field_simp
+  · rw [if_neg hany] at h
+    cases h
+    refine ⟨rfl, ?_⟩
+    unfold Qty.si
+    simp only [List.map_map]
+    apply List.map_congr_left
+    intro it hit
+    have : TUnit.eq u it.2 = true := by
+      simp only [List.any_eq_true, Bool.not_eq_true', not_exists, not_and,
+        Bool.not_eq_false] at hany
+      exact hany it hit
+    obtain ⟨hs, _, _⟩ := (tunit_eq_iff_field hc _ _).mp this
+    simp [Function.comp, hs]
+
+
+/-! ### non-vacuity: concrete instances meeting the hypotheses of the theorems above -/
+
+/-- `allclose_iff_spec` at 150 cm against 1 m with a bare `atol` of 0.6 (read in metres) -/
+example :
+    allcloseQ true witnessDes witnessAct (.bare 0) (.bare (6 / 10)) = .ok true ↔
+      AllcloseSpecHolds witnessDes witnessAct 0 (.bare (6 / 10)) :=
+  allclose_iff_spec witnessDes witnessAct 0 (.bare (6 / 10)) (by norm_num [witnessDes])
+    (by norm_num [witnessAct]) trivial rfl rfl trivial le_rfl (by norm_num [Tol.value])
+
+/-- `C19_partial` with an `atol` of 60 cm given as a quantity (inside the guard) -/
+example :
+    allcloseUnits (.qty witnessAct) (.qty witnessDes) (.bare 0)
+        (.qty 60 ⟨1 / 100, 0, Dim.dLength⟩) = .ok true ↔
+      AllcloseSpecHolds witnessAct witnessDes 0 (.qty 60 ⟨1 / 100, 0, Dim.dLength⟩) :=
+  C19_partial witnessAct witnessDes 0 (.qty 60 ⟨1 / 100, 0, Dim.dLength⟩) trivial
+    (by norm_num [witnessAct]) (by norm_num [witnessDes]) (by norm_num [TolScalePos]) rfl rfl rfl
+    le_rfl (by norm_num [Tol.value])
+
+/-- `verdict_invariant_reexpress_both_qty_atol`: 1 m → 100 cm, 150 cm → 0.0015 km -/
+example :
+    allcloseQ false (witnessAct.reexpress ⟨1 / 100, 0, Dim.dLength⟩)
+        (witnessDes.reexpress ⟨1000, 0, Dim.dLength⟩) (.bare 0) (.qty 60 ⟨1 / 100, 0, Dim.dLength⟩)
+      = .ok true ↔
+    allcloseQ false witnessAct witnessDes (.bare 0) (.qty 60 ⟨1 / 100, 0, Dim.dLength⟩) = .ok true :=
+  verdict_invariant_reexpress_both_qty_atol false witnessAct witnessDes _ _ 0 60 _ rfl
+    (by norm_num) rfl rfl (by norm_num) rfl (by norm_num [witnessAct]) rfl rfl rfl
+
 end Unyt.C19
